@@ -29,7 +29,8 @@ def gen_cfg(rng):
         return v if lst else v[0]
     met = dict(wind_speed=series(2, 6), wind_dir=series(0, 360), mol=(series(-300, -40) if rng.random() < 0.5 else series(80, 500)))
     if forcing in ("z0", "both"):
-        met["z0"] = float(rng.uniform(0.02, 0.12))
+        # ordinary land surfaces, and the ends of the scale: open water / ice (a tenth of a millimetre) and tall canopies (metres)
+        met["z0"] = float(rng.choice([rng.uniform(0.02, 0.12), rng.uniform(0.02, 0.12), 1e-4, 5e-4, 2.2]))
     if forcing in ("ustar", "both"):
         met["ustar"] = series(0.3, 0.5)     # with both given, the roughness length takes precedence
     if not lst:
@@ -60,6 +61,9 @@ def gen_cfg(rng):
         # towers inside the domain, different heights
         towers.append(dict(name="T%d" % k, lat=dom["ref_lat"] + float(rng.uniform(1e-4, 6e-4)), lon=dom["ref_lon"] + float(rng.uniform(1e-4, 8e-4)),
                            z_m=float(rng.uniform(2.5, 6.0))))
+    if met.get("z0") is not None and met["z0"] > 1.0:
+        for t_ in towers:
+            t_["z_m"] = float(rng.uniform(25.0, 40.0))      # a mast above the canopy
     if rng.random() < 0.25:
         # a tower exactly at the reference origin (x = y = 0.0), or due north / east of it (one coordinate exactly 0.0)
         kk = int(rng.integers(ntw))
